@@ -200,7 +200,10 @@ def gen_programs(ctx):
         P.append(fmt_prog("mcache", pre, [["clos:1:%s" % v(6), "clos:2:%s" % v(9)], ["clos:2:%s" % v(7), "clos:1:%s" % v(8)], ["cload:1", "cload:2"]], ["cload:1", "cload:2"]))
     for ths in ([["hold:1:2"], ["copy:1"]], [["hold:1:2"], ["code:1"]], [["hold:1:2"], ["copy:1", "copy:1"]], [["hold:1:2"], ["code:1", "copy:1"]],
                 [["hold:1:2"], ["copy:1"], ["code:1"]], [["hold:1:2", "hold:1:3"], ["copy:1"]], [["hold:1:2"], ["hold:2:3"], ["copy:1", "copy:2"]],
-                [["hold:1:2", "hold:1:3"], ["copy:1", "code:1"]], [["hold:1:4"], ["copy:1"], ["copy:1"]]):
+                [["hold:1:2", "hold:1:3"], ["copy:1", "code:1"]], [["hold:1:4"], ["copy:1"], ["copy:1"]],
+                # cont = continueSendingMessage: the next block is built from the registered request (code, options, body)
+                [["hold:1:2"], ["cont:1"]], [["hold:1:4"], ["cont:1"]], [["hold:1:2"], ["cont:1"], ["copy:1"]],
+                [["hold:1:2", "hold:1:3"], ["cont:1"]], [["hold:1:2"], ["cont:1", "cont:1"]]):
         P.append(fmt_prog("bwsend", [], ths, ["copy:1", "code:1"]))
     #     mapcb  = the plain map with lwfr: LoadWithFunc whose callback looks its key up again (a scheduling point inside the
     #              callback): what it reads is what it was called with, whatever Delete / Replace / Store the other threads try
@@ -210,6 +213,16 @@ def gen_programs(ctx):
             P.append(fmt_prog("mapcb", pre, [["lwfr:1:100"], other], ["load:1", "len"]))
     P.append(fmt_prog("mapcb", ["store:1:5"], [["lwfr:1:100"], ["delete:1"], ["los:1:9"]], ["load:1"]))
     P.append(fmt_prog("mapcb", [], [["lwfr:1:100"], ["store:1:7"]], ["load:1"]))
+    #     midtab = udp/client's table of pending message IDs on a real Conn (pend = the registration writeMessage makes, take =
+    #              handleSpecialMessages for an acknowledgement: "obtained the element, ran its handler" is LoadAndDelete's
+    #              result, has = look-up): two takers of one element, at most one obtains it
+    for pre, ths, post in (
+            (["pend:1:5"], [["take:1"], ["take:1"]], ["has:1"]),
+            (["pend:1:5"], [["take:1"], ["take:1", "pend:1:7"]], ["has:1"]),
+            (["pend:1:5"], [["take:1"], ["take:1"], ["take:1"]], ["has:1"]),
+            (["pend:1:5", "pend:2:6"], [["take:1", "take:2"], ["take:2", "take:1"]], ["has:1", "has:2"]),
+            (["pend:1:5"], [["take:1"], ["has:1", "take:1"]], ["has:1"])):
+        P.append(fmt_prog("midtab", pre, ths, post))
     #     obstab = net/observation's table of observations (reg = NewObservation, cancel = Observation.Cancel on the first
     #              observation registered under the key: "removed it and sent the deregistration" is LoadAndDelete's result,
     #              has = GetObservation): concurrent cancels of one observation have exactly one winner
@@ -296,14 +309,14 @@ def nontrivial(history):
 
 # wrapper kinds whose operations are more than one step of the table (or hold its lock across a scheduling point): their
 # histories are judged against the sequential specification, not replayed on the step model
-JUDGE_ONLY = ("bwsend", "obstab", "bwrecv", "mapcb")
+JUDGE_ONLY = ("bwsend", "obstab", "bwrecv", "mapcb", "midtab")
 
 
 def clause_of(prog):
     ops = re.findall(r"[=,]([a-z0-9]+)(?=[:,\s]|$)", prog)
     if prog.split()[1] in ("bwsend", "mapcb"):
         return "callbacks-see-current-value"
-    if prog.split()[1] in ("obstab", "bwrecv"):
+    if prog.split()[1] in ("obstab", "bwrecv", "midtab"):
         return "store-if-absent"
     if "sweep" in ops:
         return "sweep-only-expired"
